@@ -32,6 +32,17 @@ def check(run):
         ds = e["dialects"] if run.tier == "thorough" else [run.rng.choice(e["dialects"])]
         for d in ds:
             cases.append({"dialect": d, "sql": e["sql"], "seed": run.rng.randrange(1 << 30), "mutants": 24 if run.tier == "thorough" else 10})
+    # texts the tokenizer rejects (also fed, further down, through the lexer model)
+    bad_texts = ["'abc", "\"abc", "/* x", "$t$ abc", "$$ab", "E'ab", "U&'ab", "U&'\\00zz'", "U&'\\+00zz'", "U&'\\D800'", "U&'\\+110000'", "U&'\\00",
+                 "a\n 'b", "a\n\n/* b\n c", "`abc", "[abc", "'''abc", "N'ab", "x'ab", "select 'a\n", "U&'ab\\", "U&'\\00\n1'", "U&'\\+0000\n'", "U&'\\\n", "U&'\\0\n\n", "E'\n\\", "'a\n\\"]
+    lt = []
+    for s in bad_texts:
+        lt.append(s)
+        lt.append("SELECT 1;\n" + s)
+        lt.append("é\U0001F600\n\t" + s)
+    for s_ in lt:
+        for d in ("generic", "postgresql", "mysql", "bigquery"):
+            cases.append({"dialect": d, "sql": s_, "seed": run.rng.randrange(1 << 30), "mutants": 2})
     res = run_bin_parallel("drive", ["errprop"], cases)
     stat = {}
     rejected = 0
@@ -55,13 +66,6 @@ def check(run):
     run.sample({"text": cases[1]["sql"], "dialect": cases[1]["dialect"], "result": res[1]})
 
     # lexer errors through the model: located errors agree with the implementation
-    bad_texts = ["'abc", "\"abc", "/* x", "$t$ abc", "$$ab", "E'ab", "U&'ab", "U&'\\00zz'", "U&'\\+00zz'", "U&'\\D800'", "U&'\\+110000'", "U&'\\00",
-                 "a\n 'b", "a\n\n/* b\n c", "`abc", "[abc", "'''abc", "N'ab", "x'ab", "select 'a\n", "U&'ab\\"]
-    lt = []
-    for s in bad_texts:
-        lt.append(s)
-        lt.append("SELECT 1;\n" + s)
-        lt.append("é\U0001F600\n\t" + s)
     lcases = spread(run.rng, lt, per_text=4 if run.tier == "quick" else 13)
     try:
         lres, bad, inexpr = lex_correspondence(run, lcases, "c10")
